@@ -19,6 +19,14 @@ Record obs := mkobs {
                                              None = byte for byte the bytes read from the request body *)
 }.
 
+(* Big bodies. A byte string of more than 100 kB (a payload or upload content of several MiB, the bytes sent, the data
+   of a part, a GetBody answer, the producer's output) is not shipped: the harness puts its fingerprint in its place
+   (a zero byte, the text big:LENGTH:, the 32 bytes of its SHA-256), consistently in the input (bi_payload, f_chunks as
+   ONE chunk, bi_producer) and in the observation (o_sent, w_data, o_answers), and keys the sniffing table of such a
+   file by the fingerprint (answer: what the real function says about the first 512 bytes of the real content). The model
+   never looks into a content: it hands it on whole, so it runs on fingerprints as it runs on contents, and the
+   predicates compare fingerprints (equal fingerprints are taken for equal strings). An answer identical to the bytes
+   sent is None as before. *)
 Inductive case :=
 | CBody (i : body_in) (sniff_table : list (bytes * bytes)) (registered : bool) (auth : option nat) (o : obs)
 | CEscape (s : bytes) (escaped : bytes) (base : bytes).
